@@ -6,6 +6,7 @@ CONSTANTS
   Chains = FALSE
   Ext = FALSE
   Wiring = FALSE
+  Layout = FALSE
   FirstFromR2 = FALSE
   FoldTable <- MCFoldTable
   SingularTable <- MCSingular
